@@ -185,6 +185,11 @@ def run_classic(case, seed):
     out["at_samples_mean"] = mf_dict(kl2.samples.mean)
     out["samples_mean"] = mf_dict(kl.samples.mean)
     out["samples"] = [mf_dict(s) for s in kl.samples.iterator()]
+    # SampleListBase.average(op=None) and n_samples (model: sl_average, sl_n)
+    out["samples_average"] = mf_dict(kl.samples.average())
+    out["at_samples_average"] = mf_dict(kl2.samples.average())
+    out["n_samples"] = int(kl.samples.n_samples)
+    out["at_n_samples"] = int(kl2.samples.n_samples)
     # direct averaging on the implementation's own Hamiltonian (oracle material)
     vals, grads, mets, cste = [], [], [], []
     full_mean = kl.samples.mean
@@ -428,6 +433,12 @@ def coq_checks(case, out):
         chk.append(("at.samples_mean", "mfcmp 0 (sl_mean (kl_samples Q %s)) %s" % (e2, qmf(case, out["at_samples_mean"]))))
         chk.append(("samples", "lmfcmp %s (sl_samples Q qadd qsub (kl_samples Q (%s))) %s" % (
             tol, e, C.clist([qmf(case, s) for s in out["samples"]]))))
+        chk.append(("samples.average", "ocmp_mf %s (sl_average Q qadd qsub qdivn (kl_samples Q (%s))) %s" % (
+            tol, e, qmf(case, out["samples_average"]))))
+        chk.append(("at.samples.average", "ocmp_mf %s (sl_average Q qadd qsub qdivn (kl_samples Q %s)) %s" % (
+            tol, e2, qmf(case, out["at_samples_average"]))))
+        chk.append(("n_samples", "Nat.eqb (sl_n Q (kl_samples Q (%s))) %s && Nat.eqb (sl_n Q (kl_samples Q %s)) %s" % (
+            e, C.cnat(out["n_samples"]), e2, C.cnat(out["at_n_samples"]))))
     else:
         chk.append(("value", "ocmp_T %s (q_jax_value (%s) %s %s) %s" % (tol, M, mean, res, C.cq(out["value"]))))
         chk.append(("value_full", "ocmp_T %s (q_jax_value (%s) %s %s) %s" % (tol, M, mean, res, C.cq(out["value_full"]))))
